@@ -186,6 +186,15 @@ def run_case(spec):
                     if st2 == "not_implemented":
                         hit("inconclusive_not_implemented")
                         continue
+                    if 0 in b.values():
+                        # same second witness as below: with a size-0 binding "ORT ran the original" may be an artefact of kernels
+                        # that skip their argument checks on empty tensors (ArgMin over an empty axis returns a size-0 result
+                        # instead of failing, which then contradicts the shapes inference wrote into the optimized model)
+                        r1x, ro1x = runner.ref_run(m, f)
+                        if r1x == "fail" and not any(w in str(ro1x) for w in ("NotImplemented", "not implemented", "No implementation",
+                                                                                "RuntimeImplementationError")):
+                            hit("binding_discarded_reference_rejects_original")
+                            continue
                     kind, d = "accepts_less", f"optimized model fails where the original runs: {str(o2)[:200]}"
                 else:
                     o2 = mask_nd(o2)
